@@ -1317,3 +1317,54 @@ func init() {
 		return e.ret(st, e.tt.UF("crc16_fin", 16, h, data.Len))
 	}
 }
+
+// Minimal model of the host directory operations a harness may need to get through
+// iso9660/squashfs Create: os.MkdirAll/MkdirTemp register a directory, os.Stat of a registered
+// path reports a directory; everything else about the host filesystem stays unsupported.
+func init() {
+	intrinsics["os.MkdirAll"] = func(e *Engine, st *State, fn *ssa.Function, a []Value, ins ssa.Instruction) []*State {
+		if s, ok := a[0].(Str); ok {
+			if p, ok := e.strToConcrete(st, s); ok {
+				if e.hostDirs == nil {
+					e.hostDirs = map[string]bool{}
+				}
+				e.hostDirs[p] = true
+			}
+		}
+		return e.ret(st, Iface{})
+	}
+	intrinsics["os.Stat"] = func(e *Engine, st *State, fn *ssa.Function, a []Value, ins ssa.Instruction) []*State {
+		s, ok := a[0].(Str)
+		if !ok {
+			return e.callBody(st, fn, a, nil, ins)
+		}
+		p, ok := e.strToConcrete(st, s)
+		if !ok || !e.hostDirs[p] {
+			return e.callBody(st, fn, a, nil, ins)
+		}
+		var osPkg *ssa.Package
+		for _, pk := range e.prog.AllPackages() {
+			if pk.Pkg.Path() == "os" {
+				osPkg = pk
+			}
+		}
+		if osPkg == nil || osPkg.Type("fileStat") == nil {
+			return e.callBody(st, fn, a, nil, ins)
+		}
+		ft := osPkg.Type("fileStat").Type()
+		stT := ft.Underlying().(*types.Struct)
+		v := e.zero(ft).(*Agg)
+		nv := &Agg{Elems: append([]Value(nil), v.Elems...), Epoch: -1}
+		for i := 0; i < stT.NumFields(); i++ {
+			switch stT.Field(i).Name() {
+			case "mode":
+				nv.Elems[i] = e.tt.Const(32, uint64(os.ModeDir|0o755))
+			case "name":
+				nv.Elems[i] = Str{Conc: true, S: p}
+			}
+		}
+		o := e.newObj(st, ft, "fileStat", thaw(nv, st.epoch))
+		e.Models["os.Stat of a directory registered with os.MkdirAll: reports an existing directory"] = true
+		return e.ret(st, Tuple{Iface{Typ: types.NewPointer(ft), Val: Pointer{Obj: o}}, Iface{}})
+	}
+}
